@@ -37,7 +37,60 @@ func init() {
 type c17shared struct {
 	text   string
 	st     influxql.Statement
-	mapper *testMapper
+	mapper influxql.FieldMapper
+}
+
+// frozenMapper is a schema cache: built once before the goroutines start, it
+// hands out the very same maps on every call and never writes.
+type frozenMapper struct {
+	fields map[string]map[string]influxql.DataType
+	tags   map[string]map[string]struct{}
+}
+
+func (m *frozenMapper) FieldDimensions(mm *influxql.Measurement) (map[string]influxql.DataType, map[string]struct{}, error) {
+	f, ok := m.fields[mm.Name]
+	if !ok {
+		f = m.fields[""]
+	}
+	d, ok := m.tags[mm.Name]
+	if !ok {
+		d = m.tags[""]
+	}
+	return f, d, nil
+}
+
+func (m *frozenMapper) MapType(mm *influxql.Measurement, field string) influxql.DataType {
+	f, _, _ := m.FieldDimensions(mm)
+	if t, ok := f[field]; ok {
+		return t
+	}
+	_, d, _ := m.FieldDimensions(mm)
+	if _, ok := d[field]; ok {
+		return influxql.Tag
+	}
+	return influxql.Unknown
+}
+
+func newFrozenMapper() *frozenMapper {
+	all := func() map[string]influxql.DataType {
+		return map[string]influxql.DataType{"f": influxql.Float, "i": influxql.Integer, "u": influxql.Unsigned, "s": influxql.String, "bo": influxql.Boolean, "value": influxql.Float}
+	}
+	tg := func() map[string]struct{} { return map[string]struct{}{"host": {}, "region": {}} }
+	return &frozenMapper{
+		fields: map[string]map[string]influxql.DataType{"": all(), "cpu": all(), "mem": all()},
+		tags:   map[string]map[string]struct{}{"": tg(), "cpu": tg(), "mem": tg()},
+	}
+}
+
+// c17Mangle spells a keyword in a letter case derived from uid.
+func c17Mangle(word string, uid int64) string {
+	b := []byte(strings.ToLower(word))
+	for i := range b {
+		if b[i] >= 'a' && b[i] <= 'z' && (uid>>(uint(i)%24))&1 == 1 {
+			b[i] -= 32
+		}
+	}
+	return string(b)
 }
 
 type c17op struct {
@@ -63,7 +116,8 @@ func c17SharedOps() []c17op {
 				if err != nil {
 					return err.Error()
 				}
-				return o.String()
+				d, derr := o.GroupByInterval()
+				return o.String() + fmt.Sprint(o.ColumnNames(), d, derr, dumpOf(o))
 			}})
 			continue
 		}
@@ -162,6 +216,12 @@ func c17IndepOps(in *c17indep) []c17op {
 func c17Fresh(uid int64) string {
 	var sb strings.Builder
 	text := fmt.Sprintf("SELECT f%[1]d, mean(\"g %[1]d\") FROM db%[1]d.rp%[1]d./^m%[1]d.*/ WHERE h%[1]d =~ /^(a|b)%[1]d$/ AND s != 's%[1]d' AND time > now() - %[2]dns GROUP BY time(%[2]dms), /t%[1]d/ TZ('UTC'); SHOW TAG VALUES FROM m%[1]d WITH KEY =~ /k%[1]d/; CREATE USER u%[1]d WITH PASSWORD 'pw%[1]d'", uid, uid+1)
+	// keywords in a letter case this process has not seen
+	for _, kw := range []string{"SELECT", "FROM", "WHERE", "AND", "GROUP BY", "SHOW TAG VALUES", "WITH KEY", "CREATE USER", "WITH PASSWORD", "MEASUREMENTS"} {
+		text = strings.Replace(text, kw, c17Mangle(kw, uid*2654435761+int64(len(kw))), -1)
+	}
+	mk := c17Mangle("retention", uid*40503)
+	sb.WriteString(fmt.Sprint(influxql.Lookup(mk), influxql.IdentNeedsQuotes(mk), influxql.QuoteIdent(mk)))
 	q, err := influxql.ParseQuery(text)
 	if err != nil {
 		sb.WriteString("ERR " + err.Error())
@@ -222,7 +282,8 @@ func c17Worker(args []string) int {
 	var mu sync.Mutex
 	for round := 0; round < rounds; round++ {
 		// shared ASTs and independent inputs of this round, built by the main goroutine
-		const K = 8
+		const K = 10
+		frozen := newFrozenMapper()
 		var shared []*c17shared
 		for k := 0; len(shared) < K; k++ {
 			kind := gen.KindIndex([]string{"Select", "Select", "Explain", "CreateContinuousQuery"}[k%4])
@@ -255,19 +316,28 @@ func c17Worker(args []string) int {
 					{"SELECT holt_winters_with_fit(*, 3, 1), min(/./), first(*), sample(*, 2), mode(/u|s/) FROM cpu, mem GROUP BY time(5m), host",
 						"SELECT median(*), stddev(/./), spread(*), moving_average(mean(*), 3), top(/./, 2), elapsed(*) FROM cpu GROUP BY time(1m)"},
 				}[round%2][(k-6)%2]
+				if k >= 8 {
+					// a field wildcard grouped by a plain tag over one measurement, the
+					// shape in which expansion edits the tag set it got from the schema
+					txt = []string{"SELECT * FROM cpu GROUP BY host", "SELECT *, mean(*) FROM mem GROUP BY region, time(1m)"}[k%2]
+				}
 				st, _ = influxql.ParseStatement(txt)
 				gc.Text = txt
 			}
 			sh := &c17shared{text: gc.Text, st: st}
-			sh.mapper = randomMapper(mon.NewRng(seed, "c17.mapper", round*64+k), append(refNames(st), "value", "host", "a", "b", "v", "w", "region"))
+			tm := randomMapper(mon.NewRng(seed, "c17.mapper", round*64+k), append(refNames(st), "value", "host", "a", "b", "v", "w", "region"))
 			for _, n := range []string{"value", "a", "b", "v", "w"} {
-				sh.mapper.fields[""][n] = influxql.Float
+				tm.fields[""][n] = influxql.Float
 			}
-			sh.mapper.tags[""] = append(sh.mapper.tags[""], "host", "region")
+			tm.tags[""] = append(tm.tags[""], "host", "region")
 			if k >= 6 {
 				for n, t := range map[string]influxql.DataType{"f": influxql.Float, "i": influxql.Integer, "u": influxql.Unsigned, "s": influxql.String, "bo": influxql.Boolean} {
-					sh.mapper.fields[""][n] = t
+					tm.fields[""][n] = t
 				}
+			}
+			sh.mapper = tm
+			if k >= 7 {
+				sh.mapper = frozen // one schema cache shared by several statements and all goroutines
 			}
 			shared = append(shared, sh)
 		}
